@@ -239,6 +239,39 @@ theorem headers_file (n rest : Bytes) (f : FileV) (fuel : Nat) (hn : ∀ b ∈ n
   simp only [consume_app]
 
 
+/-- the header block of a file part that carries no `Content-Type`: `Content-Disposition: form-data; name=".."; filename=".."` alone -/
+def headerBlockNoCT (n fn : Bytes) : Bytes := CD ++ DQ :: (n ++ DQ :: (FN ++ DQ :: (fn ++ DQ :: CRLF)))
+
+theorem headers_file_noct (n fn rest : Bytes) (fuel : Nat) (hn : ∀ b ∈ n, b ≠ DQ) (hu : Http.validUtf8 n = true)
+    (hf : ∀ b ∈ fn, b ≠ DQ) (hfu : Http.validUtf8 fn = true) :
+    headers (fuel + 2) {} (headerBlockNoCT n fn ++ CRLF ++ rest) = some ({ name := n, mimetype := [], filename := some fn }, rest) := by
+  have e : headerBlockNoCT n fn ++ CRLF ++ rest = ascii "Content-Disposition" ++ 58 :: (ascii " form-data; name=" ++ DQ :: (n ++ DQ ::
+      (ascii "; " ++ (ascii "filename=" ++ DQ :: (fn ++ DQ :: (CRLF ++ (CRLF ++ rest))))))) := by
+    have h1 : CD = ascii "Content-Disposition" ++ 58 :: ascii " form-data; name=" := by decide
+    have h2 : FN = ascii "; " ++ ascii "filename=" := by decide
+    simp only [headerBlockNoCT, h1, h2]; simp
+  rw [e, headers]
+  have h0 : ∀ t, consume CRLF (ascii "Content-Disposition" ++ t) = none := by
+    intro t
+    have : ascii "Content-Disposition" = 67 :: (ascii "ontent-Disposition") := by decide
+    rw [this]; simp [consume, CRLF, List.isPrefixOf]
+  have hk1 := readWhile_stop isKebab (ascii "Content-Disposition") 58 (ascii " form-data; name=" ++ DQ :: (n ++ DQ ::
+      (ascii "; " ++ (ascii "filename=" ++ DQ :: (fn ++ DQ :: (CRLF ++ (CRLF ++ rest))))))) (by decide) (by decide)
+  simp only [h0, hk1]
+  have h2 : (ascii "Content-Disposition").isEmpty = false := by decide
+  have h3 : eqIgnoreCase (ascii "Content-Disposition") (ascii "Content-Type") = false := by decide
+  have h4 : eqIgnoreCase (ascii "Content-Disposition") (ascii "Content-Disposition") = true := by decide
+  simp only [h2, Bool.false_eq_true, if_false, h3, h4, if_true]
+  have h5 : ∀ t, (58 : UInt8) :: (ascii " form-data; name=" ++ t) = ascii ": form-data; name=" ++ t := by
+    intro t
+    have : ascii ": form-data; name=" = 58 :: ascii " form-data; name=" := by decide
+    rw [this]; simp
+  rw [h5, consume_app]
+  simp only [Option.bind_some, readQuoted_ok n _ hn, hu, Bool.not_true, Bool.false_eq_true, if_false, consume_app, readQuoted_ok fn _ hf, hfu]
+  rw [headers]
+  simp only [consume_app]
+
+
 end Ohkami.Multipart
 
 namespace Ohkami.Multipart
@@ -327,6 +360,29 @@ theorem parts_tail (delim : Bytes) : ∀ (form : List Part) (acc : List Part) (f
         simp only [hkind.1, hkind.2, content, hname, hmt, Bool.false_eq_true, if_false]
         rw [ih _ f hrest (by simp at hf; omega)]
         simp
+
+/-- **A file part without `Content-Type` is `text/plain`** (RFC 7578 4.4: the header is optional).  Whatever the name, the file name and the content (with the
+delimiter occurring nowhere in it), and wherever the part stands in the form: the part loop delivers the file under the media type `text/plain` and goes on with
+the rest of the form. -/
+theorem part_without_content_type (delim n fn c : Bytes) (ps acc : List Part) (f : Nat)
+    (hn : ∀ b ∈ n, b ≠ DQ) (hu : Http.validUtf8 n = true) (hf : ∀ b ∈ fn, b ≠ DQ) (hfu : Http.validUtf8 fn = true)
+    (hfit : ∀ i, i < c.length → (CRLF ++ delim).isPrefixOf ((c ++ (CRLF ++ delim) ++ tail delim ps).drop i) = false) :
+    parts (f + 1) delim (CRLF ++ (headerBlockNoCT n fn ++ CRLF ++ (c ++ CRLF ++ (delim ++ tail delim ps)))) acc =
+      parts f delim (tail delim ps) (acc ++ [.file n ⟨fn, TEXT_PLAIN, c⟩]) := by
+  rw [parts, consume_app]
+  simp only
+  have hlen : 2 ≤ (headerBlockNoCT n fn ++ CRLF ++ (c ++ CRLF ++ (delim ++ tail delim ps))).length + 1 := by
+    simp only [List.length_append]; have : 0 < (headerBlockNoCT n fn).length := by simp [headerBlockNoCT, CD, ascii]
+    omega
+  obtain ⟨k, hk⟩ : ∃ k, (headerBlockNoCT n fn ++ CRLF ++ (c ++ CRLF ++ (delim ++ tail delim ps))).length + 1 = k + 2 :=
+    ⟨(headerBlockNoCT n fn ++ CRLF ++ (c ++ CRLF ++ (delim ++ tail delim ps))).length - 1, by omega⟩
+  rw [hk, headers_file_noct n fn (c ++ CRLF ++ (delim ++ tail delim ps)) k hn hu hf hfu]
+  simp only
+  have hru : readUntil (CRLF ++ delim) (c ++ CRLF ++ (delim ++ tail delim ps)) = (c, (CRLF ++ delim) ++ tail delim ps) := by
+    have := C10.readUntil_exact (CRLF ++ delim) c (tail delim ps) hfit
+    simpa [List.append_assoc] using this
+  rw [hru]
+  simp only [consume_app, List.isEmpty_nil, if_true]
 
 /-- **A form survives the trip.**  For every form (any number of text fields and files, any names, filenames, media types, binary
 contents) written by a conforming RFC 7578 encoder with a delimiter that occurs in no part, `Multipart::parse` recovers exactly the parts:
